@@ -23,6 +23,19 @@ Proof.
   rewrite (H _ R). destruct (loop_ctl id (run e0)); auto.
 Qed.
 
+Lemma range_map_loop_mono (run run' : env -> outcome) :
+  (forall e, run e <> OOutOfFuel -> run' e = run e) ->
+  forall keys id kx vx ik m e,
+    range_map_loop run id kx vx ik m keys e <> OOutOfFuel ->
+    range_map_loop run' id kx vx ik m keys e = range_map_loop run id kx vx ik m keys e.
+Proof.
+  intros H keys; induction keys as [|k rest IH]; intros id kx vx ik m e H0; cbn in *; [reflexivity|].
+  set (e0 := set_opt vx (map_lookup m k) (set_opt kx (key_value ik k) e)) in *.
+  assert (R : run e0 <> OOutOfFuel).
+  { intro C. rewrite C in H0. cbn in H0. congruence. }
+  rewrite (H _ R). destruct (loop_ctl id (run e0)); auto.
+Qed.
+
 Lemma assign1_not_oof l v e : assign1 l v e <> OOutOfFuel.
 Proof.
   destruct l; cbn; try discriminate.
@@ -66,6 +79,11 @@ Proof.
   - (* SRange *)
     destruct (eval e e0); try reflexivity. destruct (items_of v0); [|reflexivity].
     apply range_loop_mono; auto.
+  - (* SRangeMap *)
+    destruct (eval e m) as [[]| |]; try reflexivity.
+    destruct (p_oracle p "map.order" _) as [[|[] [|]]|]; try reflexivity.
+    destruct (strs_of l); [|reflexivity]. destruct (perm_ok _ _); [|reflexivity].
+    apply range_map_loop_mono; auto.
 Qed.
 
 Lemma exec_S f : forall p s e, exec f p s e <> OOutOfFuel -> exec (S f) p s e = exec f p s e.
@@ -392,9 +410,9 @@ Proof. intros H. rewrite (nth_indep _ VUnset (v_strs [])) by (rewrite map_length
 (** reduction of the interpreter's own functions only: arithmetic, comparisons, [wrap],
     [in_bounds], list functions on symbolic data stay folded *)
 Ltac ev :=
-  cbn [eval evals ebind slice_from_val slice_range_val be_val has_val map_get_val map_has_val nth_error binop_val binop_int binop_str binop_bool is_nilish
+  cbn [eval evals ebind slice_from_val slice_range_val be_val has_val map_get_val map_has_val compare_val nth_error binop_val binop_int binop_str binop_bool is_nilish
        items_of set_opt upd get nth assign_all assign1 loop_ctl Nat.eqb call_result ret_of
-       wp_items f_nparams f_nvars f_outs f_body byte_val map negb Bool.eqb orb andb].
+       key_value wp_items f_nparams f_nvars f_outs f_body byte_val map negb Bool.eqb orb andb].
 
 (** [start_func go_f]: from [exists fuel, run_func fuel p go_f args = r] to a [wp] goal over the
     translated body with the initial environment computed *)
@@ -459,7 +477,7 @@ Ltac norm1 :=
     | rewrite wrap_u16 by side
     | rewrite wrap_u8 by side
     | rewrite wrap_u64 by side
-    | rewrite leb_true by (rewrite ?skipn_length; side)
+    | rewrite leb_true by (rewrite ?firstn_length, ?skipn_length; side)
     | rewrite is_neg_false by side
     | rewrite make_ok_true by side
     | rewrite length_map_VStr | rewrite length_map_v_strs | rewrite length_map_v_nat
@@ -748,4 +766,75 @@ Proof.
   induction l as [|a l IH]; intros i.
   - destruct i; reflexivity.
   - destruct i as [|i]; [reflexivity|]. cbn [skipn]. apply IH.
+Qed.
+
+(** * range over a map *)
+Fixpoint wp_mitems (p : prog) (id : nat) (kx vx : option nat) (ik : bool) (body : stmt)
+         (m : list (bytes * value)) (keys : list bytes) (e : env) (Q : outcome -> Prop) : Prop :=
+  match keys with
+  | [] => Q (ONormal e)
+  | k :: rest =>
+      wp p body (set_opt vx (map_lookup m k) (set_opt kx (key_value ik k) e)) (fun o =>
+        match loop_ctl id o with
+        | LNext e1 => wp_mitems p id kx vx ik body m rest e1 Q
+        | LExit e1 => Q (ONormal e1)
+        | LProp o => Q o
+        end)
+  end.
+
+Lemma wp_mitems_sound p id kx vx ik body m (Q : outcome -> Prop) keys :
+  forall e, wp_mitems p id kx vx ik body m keys e Q ->
+    exists f, forall f', (f <= f')%nat ->
+      range_map_loop (exec f' p body) id kx vx ik m keys e <> OOutOfFuel /\
+      Q (range_map_loop (exec f' p body) id kx vx ik m keys e).
+Proof.
+  induction keys as [|k rest IH]; intros e H; cbn [wp_mitems range_map_loop] in *.
+  - exists O. intros f' _. split; [discriminate|exact H].
+  - destruct H as (f1 & H1 & HQ).
+    set (e0 := set_opt vx (map_lookup m k) (set_opt kx (key_value ik k) e)) in *.
+    destruct (loop_ctl id (exec f1 p body e0)) eqn:L.
+    + destruct (IH _ HQ) as (f2 & H2).
+      exists (Nat.max f1 f2). intros f' Hf.
+      rewrite (exec_mono f1 f') by (try lia; congruence). rewrite L. apply H2. lia.
+    + exists f1. intros f' Hf. rewrite (exec_mono f1 f') by (try lia; congruence). rewrite L.
+      split; [discriminate|exact HQ].
+    + exists f1. intros f' Hf. rewrite (exec_mono f1 f') by (try lia; congruence). rewrite L.
+      split; [|exact HQ]. eapply loop_ctl_prop_not_oof; eauto.
+Qed.
+
+Lemma wp_range_map p id kx vx ik mx body e (Q : outcome -> Prop) m vs keys :
+  eval e mx = EV (VMap m) ->
+  p_oracle p "map.order" [VList (map VStr (map_keys m))] = Some [VList vs] ->
+  strs_of vs = Some keys -> perm_ok keys (map_keys m) = true ->
+  wp_mitems p id kx vx ik body m keys e Q ->
+  wp p (SRangeMap id kx vx ik mx body) e Q.
+Proof.
+  intros E Ho Es Hp H. destruct (wp_mitems_sound _ _ _ _ _ _ _ _ _ _ H) as (f & Hf).
+  destruct (Hf f (le_n _)) as (H1 & H2).
+  apply (wp_step _ _ _ _ f); cbn [exec_step]; rewrite E, Ho, Es, Hp; assumption.
+Qed.
+
+Lemma wp_mitems_inv p id kx vx ik body m (Q : outcome -> Prop) (Inv : list bytes -> env -> Prop) keys e :
+  Inv [] e ->
+  (forall done k e, Inv done e -> (exists rest, keys = done ++ k :: rest) ->
+      wp p body (set_opt vx (map_lookup m k) (set_opt kx (key_value ik k) e)) (fun o =>
+        match loop_ctl id o with
+        | LNext e1 => Inv (done ++ [k]) e1
+        | LExit e1 => Q (ONormal e1)
+        | LProp o => Q o
+        end)) ->
+  (forall e, Inv keys e -> Q (ONormal e)) ->
+  wp_mitems p id kx vx ik body m keys e Q.
+Proof.
+  intros H0 Hstep Hend.
+  assert (G : forall rest done e, keys = done ++ rest -> Inv done e ->
+                wp_mitems p id kx vx ik body m rest e Q).
+  { induction rest as [|k rest IH]; intros done e' E HI; cbn [wp_mitems].
+    - apply Hend. subst keys. now rewrite app_nil_r.
+    - eapply wp_conseq.
+      + apply (Hstep done k e' HI). exists rest. exact E.
+      + cbn beta. intros o _. destruct (loop_ctl id o); auto.
+        intros HI'. apply (IH (done ++ [k])); [|exact HI'].
+        subst keys. now rewrite <- app_assoc. }
+  apply (G keys [] e); auto.
 Qed.
